@@ -217,10 +217,18 @@ impl<'a, F: FileSystem> ExtendsResolver<'a, F> {
             .and_then(toml::Value::as_str)
             .map(String::from);
 
-        let extends_sha256 = config_value
-            .get("extends_sha256")
-            .and_then(toml::Value::as_str)
-            .map(String::from);
+        // A pin that is present but not a string must not be dropped silently: the remote
+        // content would take effect unverified although the file asks for verification.
+        let extends_sha256 = match config_value.get("extends_sha256") {
+            None => None,
+            Some(toml::Value::String(pin)) => Some(pin.clone()),
+            Some(other) => {
+                return Err(SlocGuardError::Config(format!(
+                    "'extends_sha256' must be a string (SHA-256 in hex), found {}",
+                    other.type_str()
+                )));
+            }
+        };
 
         let (mut merged_value, preset_used) = if let Some(extends) = extends_value {
             let (base_value, preset_used) = if let Some(preset_name) =
